@@ -1,6 +1,6 @@
 (* C02 — property theorems (statements in full; proofs in Proofs*.v). *)
 From Coq Require Import List NArith Bool.
-From LTV.C02 Require Import Model ProofsA ProofsB ProofsC Proofs ProofsD ProofsE ProofsF.
+From LTV.C02 Require Import Model ProofsA ProofsB ProofsC Proofs ProofsD ProofsE ProofsF ProofsG.
 Import ListNotations.
 Local Open Scope N_scope.
 
@@ -222,3 +222,50 @@ Theorem update_completed_exact : forall cs lay, cfg_ok cs lay -> forall done fc,
   update_completed (mk_cfg cs lay) done fc = (map (cir done) (c_files (mk_cfg cs lay)), true).
 Proof. exact ProofsF.update_completed_exact. Qed.
 Print Assumptions update_completed_exact.
+
+(* SocketFile::create_chunk: align = off % page; mmap(len + align, off - align); begin = ptr + align.
+   The mapping starts on a page, and the MemoryChunk denotes file bytes [off, off+len) for EVERY page size. *)
+Theorem mmap_window_exact : forall page off len, 0 < page ->
+  let w := sf_window page off len in
+  w_moff w mod page = 0 /\ w_moff w + w_begin w = off /\ w_mlen w = w_begin w + len /\
+  w_begin w < page /\ w_begin w = off mod page.
+Proof. exact ProofsG.sf_window_exact. Qed.
+Print Assumptions mmap_window_exact.
+
+Theorem mmap_bytes_page_independent : forall page im off len, 0 < page ->
+  sf_bytes page im off len = f_slice im off len.
+Proof. exact ProofsG.sf_bytes_page_independent. Qed.
+Print Assumptions mmap_bytes_page_independent.
+
+(* what the model reads for a file part = that window of the part's page-aligned mapping *)
+Theorem seg_read_via_mmap : forall page store cm p o k, 0 < page -> p_pad p = false ->
+  o + k <= p_size p ->
+  seg_read store cm p o k =
+  firstn (N.to_nat k) (skipn (N.to_nat o)
+    (sf_bytes page (nth (p_file p) store fempty) (p_foff p) (p_size p))).
+Proof. exact ProofsG.seg_read_via_mmap. Qed.
+Print Assumptions seg_read_via_mmap.
+
+(* Chunk::compare_buffer (memcmp per segment, early exit) = "to_buffer would return the buffer" *)
+Theorem compare_buffer_exact : forall cs lay s off len w pos data s' ps wr bs b,
+  let c := mk_cfg cs lay in
+  length (s_store s) = length (c_files c) -> len < two32 ->
+  pos + N.of_nat (length data) < two32 ->
+  do_chunk c s off len w pos data pos (N.of_nat (length data)) = (s', OutChunk ps wr (Some bs) (Some b)) ->
+  (b = true <-> bs = data).
+Proof. exact ProofsG.compare_buffer_exact. Qed.
+Print Assumptions compare_buffer_exact.
+
+(* HashChunk::perform, any schedule of perform(l) calls: SHA-1 receives exactly the piece's bytes
+   in order, each once (file byte located at idx*cs + k; 0 in padding); final position = piece size *)
+Theorem hash_piece_exact : forall cs lay s idx steps s' fed pos,
+  let c := mk_cfg cs lay in
+  length (s_store s) = length (c_files c) -> chunk_index_size c idx < two32 ->
+  step c s (OpHash idx steps) = (s', OutHash fed pos) ->
+  pos = chunk_index_size c idx /\
+  exists bs, fed = Some bs /\ length bs = N.to_nat pos /\
+    forall k i f o, k < pos -> located (c_files c) (idx * cs + k) i o ->
+      nth_error (c_files c) i = Some f ->
+      nth (N.to_nat k) bs 0 = if f_pad f then 0 else raw (s_store s) i o.
+Proof. exact ProofsG.hash_piece_exact. Qed.
+Print Assumptions hash_piece_exact.
